@@ -136,6 +136,45 @@ theorem assert_exact (x : Iface) (t : Nat) :
     assertConcrete x t = GV.Spec.Checks.assertConcrete (toSpecIface x) t := by
   cases x <;> simp [assertConcrete, GV.Spec.Checks.assertConcrete, toSpecIface]
 
+/-! ### comparability of dynamic types (the `comparable` flag `$interfaceIsEqual` / `$ifaceKeyFor` test) -/
+section Comparable
+open GV.Spec.GoTypes
+
+mutual
+/-- the prelude's `typ.comparable` equals the Go rule for every type of the grid language (structural induction):
+    a struct type is comparable iff ALL its fields — blank and embedded ones included — are, an array type iff
+    its element type is -/
+theorem tyComparable_exact : ∀ t : Ty, tyComparable t = comparable t
+  | .int => rfl
+  | .str => rfl
+  | .iface => rfl
+  | .slice => rfl
+  | .map => rfl
+  | .func => rfl
+  | .arr _ e => by simp [tyComparable, comparable, tyComparable_exact e]
+  | .struct fs => by simp [tyComparable, comparable, fieldsEvery_exact fs]
+theorem fieldsEvery_exact : ∀ fs : Fields, fieldsEvery fs = allComparable fs
+  | .nil => rfl
+  | .cons _ t rest => by
+    simp only [fieldsEvery, allComparable, tyComparable_exact t, fieldsEvery_exact rest]
+    cases comparable t <;> simp
+end
+
+/-- `x == y` on interface values of identical dynamic type `t` panics iff `t` is not comparable (Go spec) -/
+theorem iface_eq_type_exact (t : Ty) : ifaceEqSameType t = none ↔ comparable t = false := by
+  simp [ifaceEqSameType, tyComparable_exact]
+
+/-- a map insert with an interface key of dynamic type `t` panics iff `t` is not comparable (Go spec) -/
+theorem iface_key_exact (t : Ty) : ifaceKeyFor t = none ↔ comparable t = false := by
+  simp [ifaceKeyFor, tyComparable_exact]
+
+/-- skipping blank fields is wrong: `struct{ _ [0]func(); x int }` (the "forbid ==" idiom) is not comparable -/
+theorem skip_blank_counterexample :
+    tyComparableSkipBlank (.struct (.cons .blank (.arr 0 .func) (.cons .named .int .nil))) ≠
+      comparable (.struct (.cons .blank (.arr 0 .func) (.cons .named .int .nil))) := by decide
+
+end Comparable
+
 /-- every run-time check panics exactly when the Go specification says so, for all operand values -/
 theorem checks_exact :
     (∀ len i, indexCheck len i = none ↔ ¬ GV.Spec.Checks.indexOk len i) ∧
